@@ -7,6 +7,8 @@ package main
 
 import (
 	"go/ast"
+	"go/printer"
+	"go/token"
 	"strings"
 )
 
@@ -142,4 +144,160 @@ func g2CallName0(n ast.Node) (string, string, []ast.Expr, bool) {
 		return "", "", nil, false
 	}
 	return g2CallName(x)
+}
+
+// ---- C17: connection.go setupConnection — which role of which mini-protocol is registered /
+// started under which condition (go/ast, re-read on every run) ----
+
+func g2ExprString(x ast.Expr) string {
+	var sb strings.Builder
+	_ = printer.Fprint(&sb, token.NewFileSet(), x)
+	return strings.Join(strings.Fields(sb.String()), " ")
+}
+
+// g2RoleCall recognises `c.<field>.<Server|Client>.<EnsureRegistered|Start>()`
+func g2RoleCall(s ast.Stmt) (field, role, method string, ok bool) {
+	es, ok := s.(*ast.ExprStmt)
+	if !ok {
+		return
+	}
+	call, ok := es.X.(*ast.CallExpr)
+	if !ok || len(call.Args) != 0 {
+		return "", "", "", false
+	}
+	m, ok := call.Fun.(*ast.SelectorExpr)
+	if !ok || (m.Sel.Name != "EnsureRegistered" && m.Sel.Name != "Start") {
+		return "", "", "", false
+	}
+	r, ok := m.X.(*ast.SelectorExpr)
+	if !ok || (r.Sel.Name != "Server" && r.Sel.Name != "Client") {
+		return "", "", "", false
+	}
+	f, ok := r.X.(*ast.SelectorExpr)
+	if !ok {
+		return "", "", "", false
+	}
+	if id, ok2 := f.X.(*ast.Ident); !ok2 || id.Name != "c" {
+		return "", "", "", false
+	}
+	return f.Sel.Name, r.Sel.Name, m.Sel.Name, true
+}
+
+type g2RoleFact struct{ branch, outer, field, role, method, guard string }
+
+func init() {
+	registerGen(func() {
+		p := loadPkg(".")
+		fd := findFunc(p, "Connection", "setupConnection")
+		if fd == nil {
+			fatal("Connection.setupConnection not found")
+		}
+		var facts []g2RoleFact
+		// collect role calls of one block (direct statements, or wrapped in one guarding `if` without else)
+		collect := func(branch, outer string, b *ast.BlockStmt) int {
+			n := 0
+			for _, st := range b.List {
+				if f, r, m, ok := g2RoleCall(st); ok {
+					facts = append(facts, g2RoleFact{branch, outer, f, r, m, ""})
+					n++
+					continue
+				}
+				if ifs, ok := st.(*ast.IfStmt); ok && ifs.Else == nil && ifs.Init == nil {
+					for _, st2 := range ifs.Body.List {
+						if f, r, m, ok := g2RoleCall(st2); ok {
+							facts = append(facts, g2RoleFact{branch, outer, f, r, m, g2ExprString(ifs.Cond)})
+							n++
+						}
+					}
+				}
+			}
+			return n
+		}
+		var walkBranch func(branch, outer string, b *ast.BlockStmt)
+		walkBranch = func(branch, outer string, b *ast.BlockStmt) {
+			for _, st := range b.List {
+				ifs, ok := st.(*ast.IfStmt)
+				if !ok || ifs.Init != nil {
+					continue
+				}
+				cond := g2ExprString(ifs.Cond)
+				full := cond
+				if outer != "" {
+					full = outer + " ; " + cond
+				}
+				direct := false
+				for _, st2 := range ifs.Body.List {
+					if _, _, _, ok := g2RoleCall(st2); ok {
+						direct = true
+					}
+				}
+				if direct {
+					collect(branch, full, ifs.Body)
+				} else {
+					// a wrapper such as `if !c.delayProtocolStart { … }`
+					walkBranch(branch, full, ifs.Body)
+				}
+			}
+		}
+		// the mode chain: if c.useNodeToNodeProto {…} else if c.useDMQProtocol {…} else {…}
+		found := false
+		for _, st := range fd.Body.List {
+			ifs, ok := st.(*ast.IfStmt)
+			if !ok || g2ExprString(ifs.Cond) != "c.useNodeToNodeProto" {
+				continue
+			}
+			e1, ok := ifs.Else.(*ast.IfStmt)
+			if !ok || g2ExprString(e1.Cond) != "c.useDMQProtocol" {
+				continue
+			}
+			e2, ok := e1.Else.(*ast.BlockStmt)
+			if !ok {
+				continue
+			}
+			found = true
+			walkBranch("ntn", "", ifs.Body)
+			walkBranch("dmq", "", e1.Body)
+			walkBranch("ntc", "", e2)
+		}
+		if !found {
+			fatal("setupConnection: mode chain (NtN / DMQ / NtC) not found")
+		}
+		// every EnsureRegistered / Start call of the function must have been understood
+		total := 0
+		ast.Inspect(fd.Body, func(n ast.Node) bool {
+			if st, ok := n.(ast.Stmt); ok {
+				if _, _, _, ok := g2RoleCall(st); ok {
+					total++
+				}
+			}
+			return true
+		})
+		// the handshake's own Start calls are `c.handshake.Server.Start()` / Client: counted but not in the chain
+		hs := 0
+		ast.Inspect(fd.Body, func(n ast.Node) bool {
+			if st, ok := n.(ast.Stmt); ok {
+				if f, _, _, ok := g2RoleCall(st); ok && f == "handshake" {
+					hs++
+				}
+			}
+			return true
+		})
+		if total-hs != len(facts) {
+			fatal("setupConnection: %d role calls, %d understood", total-hs, len(facts))
+		}
+		l := newLean("ConnSetupFacts")
+		l.pf("namespace GV.Gen.ConnSetupFacts\n")
+		l.pf("/-- every `c.<field>.<Server|Client>.<EnsureRegistered|Start>()` of Connection.setupConnection:\n")
+		l.pf("    (mode branch, enclosing conditions joined by ` ; `, field, role, method, own guard) -/\n")
+		l.pf("def roleCalls : List (String × String × String × String × String × String) := [\n")
+		for i, f := range facts {
+			sep := ","
+			if i == len(facts)-1 {
+				sep = ""
+			}
+			l.pf("  (%q, %q, %q, %q, %q, %q)%s\n", f.branch, f.outer, f.field, f.role, f.method, f.guard, sep)
+		}
+		l.pf("]\n")
+		l.pf("end GV.Gen.ConnSetupFacts\n")
+	})
 }
